@@ -99,6 +99,15 @@ def setup(E, shape):
         kw["deriv_check"] = P.DerivCheck.CheckAll
         kw["deriv_pert"] = 2.0 ** -20
         kw["deriv_tol"] = E.real("deriv_tol", lo=0, lo_strict=True)
+    sc = shape.get("scaling")  # concrete power-of-two weights: dict(vw=[..], cw=[..], ow=int)
+    vw = list(sc["vw"]) if sc else [0] * len(vk)
+    cw = list(sc["cw"]) if sc else [0] * len(ck)
+    ow = sc["ow"] if sc else 0
+    if sc:
+        Scaling = boot.mod("scale").Scaling
+        kw["scaling"] = Scaling(np.array(vw, dtype=int) if vw else np.zeros((0,), dtype=int), np.array(cw, dtype=int) if cw else np.zeros((0,), dtype=int), ow)
+        kw["scaling_type"] = P.ScalingType.Custom
+    spec.update(vw=vw, cw=cw, ow=ow, slack_pos=[i for i, k in enumerate(ck) if k not in ("eq0", "eqb")])
     params = P.Params(
         penalty_update=P.PenaltyUpdate[pol],
         collect_path=shape.get("collect_path", True),
@@ -190,27 +199,14 @@ def run(ctx):
 
 def internal_oracle(ctx, it):
     """independent evaluation of the internal (slack) problem at the internal point it.x, it.y,
-    written from the user's UF callbacks (no scaling in this harness)"""
+    written from the user's UF callbacks through the reference transformation (scaling + slacks)"""
+    from . import xform
+
     E, spec = ctx.E, ctx.spec
-    n, m = spec["n"], spec["m"]
     x = items(it.x)
     y = items(it.y)
-    xu = x[:n]
-    slack_pos = [i for i, k in enumerate(spec["cons_kinds"]) if k not in ("eq0", "eqb")]
-    s = x[n:]
-    c = []
-    for i in range(m):
-        ci = E.uf(f"c{i}", *xu)
-        k = spec["cons_kinds"][i]
-        if k == "eqb":
-            ci = ci - spec["cl"][i]
-        if i in slack_pos:
-            ci = ci - s[slack_pos.index(i)]
-        c.append(ci)
-    J = [[spec["Jf"](i, j, xu) for j in range(n)] + [(-1.0 if (i in slack_pos and slack_pos.index(i) == q) else 0.0) for q in range(len(slack_pos))] for i in range(m)]
-    g = [E.uf(f"g{j}", *xu) for j in range(n)] + [0.0] * len(slack_pos)
-    f = E.uf("f", *xu)
-    return dict(x=x, y=y, c=c, J=J, g=g, f=f, N=n + len(slack_pos))
+    ref = xform.reference(E, spec, x, y)  # the statement's scaled + slack reformulation
+    return dict(x=x, y=y, c=ref["c"], J=ref["J"], g=ref["g"], f=ref["f"], N=ref["N"])
 
 
 def check(ctx):
@@ -290,9 +286,12 @@ def check(ctx):
     final = ctx.final_iterate
     d = items(final.bounds_dual)
     n = ctx.spec["n"]
-    E.prove(common.eq_all(items(res.x), items(final.x)[:n]), "C12.result_is_last_accepted.x")
-    E.prove(common.eq_all(items(res.y), items(final.y)), "C12.result_is_last_accepted.y")
-    E.prove(common.eq_all(items(res.d), d[:n]), "C12.result_is_last_accepted.d")
+    from .xform import ld
+
+    vw, cw, ow = ctx.spec["vw"], ctx.spec["cw"], ctx.spec["ow"]
+    E.prove(common.eq_all(items(res.x), [ld(v, -vw[j]) for j, v in enumerate(items(final.x)[:n])]), "C12.result_is_last_accepted.x")
+    E.prove(common.eq_all(items(res.y), [ld(v, cw[i] - ow) for i, v in enumerate(items(final.y))]), "C12.result_is_last_accepted.y")
+    E.prove(common.eq_all(items(res.d), [ld(v, vw[j] - ow) for j, v in enumerate(d[:n])]), "C12.result_is_last_accepted.d")
     E.prove(common.in_box(items(res.x), ctx.spec["xl"], ctx.spec["xu"]), "C05.result_in_box")
     O = internal_oracle(ctx, final)
     tol = p.opt_tol
@@ -354,7 +353,7 @@ def check(ctx):
     common.check_snapshots(E, ctx.owned_snap, "C11.solve_leaves_bound_arrays_unchanged")
     # start iterate is the transformed x0 (slack = clip(c(x0), l, u))
     sx = items(ctx.start_iterate.x)
-    E.prove(common.eq_all(sx[:n], ctx.x0), "C12.first_step_starts_from_x0")
+    E.prove(common.eq_all(sx[:n], [ld(v, vw[j]) for j, v in enumerate(ctx.x0)]), "C12.first_step_starts_from_x0")
     E.prove(common.in_box(sx, ctx.lb, ctx.ub), "C05.start_in_box")
 
 
@@ -398,7 +397,7 @@ def loop_tasks(combos, K, opts=None):
         if c.get("policy") in HEAVY and c.get("cons") and K > 2:
             Kc = 2  # 15 k paths / 20 min single core at K=3 (measured): these two policies stay at K=2
         sh = dict(K=Kc, policy=c.get("policy", "DualNorm"), vars=c.get("vars", ["boxed"]), cons=c.get("cons", []))
-        for k in ("limit", "time_limit", "collect_path", "fmt", "deriv_check", "start_faults", "policy_cb"):
+        for k in ("limit", "time_limit", "collect_path", "fmt", "deriv_check", "start_faults", "policy_cb", "scaling"):
             if k in c:
                 sh[k] = c[k]
         o = dict(mulmode="uf", timeout_ms=20000)
